@@ -139,6 +139,7 @@ MUTATIONS = [
     ("tlexport/quic/quic_session.py", '            keys["server_initial_key"],\n            keys["server_initial_iv"],\n            keys["client_initial_key"],', '            keys["client_initial_key"],\n            keys["server_initial_iv"],\n            keys["server_initial_key"],', 'set_initial_decryptor: server and client keys swapped'),
     ("tlexport/quic/quic_session.py", '        dec = QuicDecryptor(dec_keys, AESGCM, early=False)', '        dec = QuicDecryptor(dec_keys, AESGCM, early=True)', 'set_initial_decryptor: Initial decryptor built as an early-data decryptor'),
     ("tlexport/quic/quic_session.py", '        if keys is None:\n            self.can_decrypt = False\n            return\n\n        dec_keys', '        if keys is None:\n            return\n\n        dec_keys', 'set_initial_decryptor: can_decrypt kept when no keys'),
+    ("tlexport/main.py", '    for buf, ts in all_decrypted_sessions:\n        writer.writepkt(bytes(buf), ts)', '    for buf, ts in reversed(all_decrypted_sessions):\n        writer.writepkt(bytes(buf), ts)', 'main.write_all: frames written in reverse order'),
     # group QuicTls: quic_tls_parser.py
     ("tlexport/quic/quic_tls_parser.py", "            if p_type == 0x2ab2:", "            if p_type == 0x2ab3:", "get_quic_transport_parameters: grease_quic_bit under the wrong id"),
     ("tlexport/quic/quic_tls_parser.py", "            extension_body = extension_body[index + parameter_length:]", "            extension_body = extension_body[index + parameter_length + 1:]", "get_quic_transport_parameters: a byte skipped after each parameter"),
